@@ -1153,7 +1153,8 @@ func commitLock(batch *leveldb.Batch, lock mvccLock, key []byte, startTS, commit
 	switch lock.op {
 	case kvrpcpb.Op_Put:
 		valueType = typePut
-	case kvrpcpb.Op_Lock:
+	case kvrpcpb.Op_Lock, kvrpcpb.Op_PessimisticLock:
+		// Committing a leftover pessimistic lock must not change data: TiKV commits it as a Lock record.
 		valueType = typeLock
 	default:
 		valueType = typeDelete
